@@ -97,13 +97,41 @@ def extended(page, code):
     return word(page, code)
 
 
-def text_words(s):
-    """basic-character string -> list of words (two characters per word, padded)"""
+_SPECIAL_CODE = {v: k for k, v in SPECIAL.items() if v != " "}
+_EXT_CODE = {}
+for _page, _tab in ((0x12, EXT_12), (0x13, EXT_13)):
+    for _k, _v in _tab.items():
+        _EXT_CODE.setdefault(_v, (_page, _k))
+
+
+def text_words(s, d=1):
+    """displayed string -> list of words. Basic characters travel two per word (padded); a special character is one
+    word, an extended character is its basic stand-in followed by one word that replaces it; special / extended words
+    are sent d times (d = 2 for streams that double their codes)"""
+    import unicodedata
+
     out = []
-    i = 0
-    while i < len(s):
-        out.append(chars(s[i], s[i + 1] if i + 1 < len(s) else None))
-        i += 2
+    pending = []
+
+    def flush():
+        for i in range(0, len(pending), 2):
+            out.append(chars(pending[i], pending[i + 1] if i + 1 < len(pending) else None))
+        del pending[:]
+
+    for ch in s:
+        if ch in BASIC_CODE:
+            pending.append(ch)
+        elif ch in _SPECIAL_CODE:
+            flush()
+            out.extend([special(_SPECIAL_CODE[ch])] * d)
+        elif ch in _EXT_CODE:
+            base = unicodedata.normalize("NFD", ch)[0]
+            pending.append(base if base in BASIC_CODE and base != ch else "#")
+            flush()
+            out.extend([extended(*_EXT_CODE[ch])] * d)
+        else:
+            raise ValueError(f"not a CEA-608 character: {ch!r}")
+    flush()
     return out
 
 
